@@ -311,6 +311,10 @@ func c04Build(preamble, eol string, revs []c04Rev) *c04File {
 			f.want[NewReference(n, gen[n]+1)] = "" // generation mismatch
 		} else {
 			f.want[NewReference(n, gen[n])] = ""
+			if gen[n] > 0 {
+				// the generation the object had before it was freed reads as null, too
+				f.want[NewReference(n, gen[n]-1)] = ""
+			}
 		}
 	}
 	f.last = fmt.Sprintf("%d", len(revs)-1)
@@ -362,7 +366,7 @@ func TestB2C04Files(t *testing.T) {
 	n := 0
 	for _, pre := range []string{"", "x", "HTTP/1.1 200 OK\r\n\r\n", strings.Repeat("junk\n", 150)} {
 		for _, eol := range []string{"\n", "\r\n", "\r"} {
-			for variant := 0; variant < 10; variant++ {
+			for variant := 0; variant < 11; variant++ {
 				var revs []c04Rev
 				switch variant {
 				case 0:
@@ -383,13 +387,20 @@ func TestB2C04Files(t *testing.T) {
 					revs = []c04Rev{{objs: base, hybridTo: true}}
 				case 9:
 					revs = []c04Rev{{objs: base}, {objs: map[uint32]string{3: "(3 hybrid)", 7: "(7 hidden)", 12: "12"}, hybridTo: true}}
+				case 10:
+					// an object with generation 65534 is freed by a cross-reference stream: the free
+					// entry carries generation 65535
+					revs = []c04Rev{{objs: base, gens: map[uint32]uint16{7: 65534}, xrefStm: true, w: [3]int{1, 2, 2}}, {free: []uint32{7}, xrefStm: true, w: [3]int{1, 2, 2}, split: true}}
 				case 7:
 					// streams whose /Length is missing, wrong or an unresolvable reference
 					revs = []c04Rev{{objs: map[uint32]string{1: cat, 2: pages,
-						3: "<</S 1>>\nstream\nabc\ndef\nendstream",
-						4: "<</S 2/Length 999>>\nstream\nabc\r\nendstream",
-						5: "<</S 3/Length 77 0 R>>\nstream\nabcendstream xyz\nendstream",
-						6: "<</S 4/Length 2>>\nstream\nabcdef\nendstream"}}}
+						3:  "<</S 1>>\nstream\nabc\ndef\nendstream",
+						4:  "<</S 2/Length 999>>\nstream\nabc\r\nendstream",
+						5:  "<</S 3/Length 77 0 R>>\nstream\nabcendstream xyz\nendstream",
+						6:  "<</S 4/Length 2>>\nstream\nabcdef\nendstream",
+						8:  "<</S 5/Length 0>>\nstream\nendstream",
+						9:  "(after the empty stream)",
+						10: "<</S 6/Length 0>>\nstream\n\nendstream"}}}
 				}
 				n++
 				f := c04Build(pre, eol, revs)
@@ -409,7 +420,7 @@ func c04StreamData(t *testing.T, desc string, f *c04File) {
 	if err != nil {
 		return
 	}
-	want := map[uint32]string{3: "abc\ndef", 4: "abc", 5: "abcendstream xyz", 6: "abcdef"}
+	want := map[uint32]string{3: "abc\ndef", 4: "abc", 5: "abcendstream xyz", 6: "abcdef", 8: "", 10: ""}
 	for n, w := range want {
 		obj, err := r.Get(NewReference(n, 0), true)
 		stm, ok := obj.(*Stream)
@@ -427,4 +438,54 @@ func c04StreamData(t *testing.T, desc string, f *c04File) {
 			t.Errorf("B2-FAIL stream-extent %s obj=%d want=%q got=%q err=%v", desc, n, w, data, err)
 		}
 	}
+}
+
+// TestB2C04ObjStmLayouts: an object stream may put its first object directly behind the
+// offset table (no white space), after a space or after an end-of-line.
+func TestB2C04ObjStmLayouts(t *testing.T) {
+	cases := 0
+	for _, sep := range []string{"", " ", "\n", "\r\n  "} {
+		for _, first := range []string{"<</K(v)>>", "[1 2]", "(str)", "/Name", "true", "42"} {
+			cases++
+			if sep == "" && (first == "true" || first == "42" || first == "/Name") {
+				// a token that would merge with the last offset needs a separator
+				if first != "/Name" {
+					continue
+				}
+			}
+			head := "3 0" + sep
+			body := head + first
+			var b bytes.Buffer
+			off := map[int]int{}
+			b.WriteString("%PDF-1.7\n")
+			off[1] = b.Len()
+			b.WriteString("1 0 obj\n<</Type/Catalog/Pages 2 0 R>>\nendobj\n")
+			off[2] = b.Len()
+			b.WriteString("2 0 obj\n<</Type/Pages/Kids[]/Count 0>>\nendobj\n")
+			off[4] = b.Len()
+			fmt.Fprintf(&b, "4 0 obj\n<</Type/ObjStm/N 1/First %d/Length %d>>\nstream\n%s\nendstream\nendobj\n", len(head), len(body), body)
+			off[5] = b.Len()
+			var x bytes.Buffer
+			x.Write([]byte{0, 0, 0, 255})
+			x.Write([]byte{1, byte(off[1] >> 8), byte(off[1]), 0})
+			x.Write([]byte{1, byte(off[2] >> 8), byte(off[2]), 0})
+			x.Write([]byte{2, 0, 4, 0})
+			x.Write([]byte{1, byte(off[4] >> 8), byte(off[4]), 0})
+			x.Write([]byte{1, byte(off[5] >> 8), byte(off[5]), 0})
+			fmt.Fprintf(&b, "5 0 obj\n<</Type/XRef/Size 6/W[1 2 1]/Root 1 0 R/Length %d>>\nstream\n", x.Len())
+			b.Write(x.Bytes())
+			fmt.Fprintf(&b, "\nendstream\nendobj\nstartxref\n%d\n%%%%EOF\n", off[5])
+			r, err := NewReader(bytes.NewReader(b.Bytes()), int64(b.Len()), nil)
+			if err != nil {
+				t.Errorf("B2-FAIL objstm-layout sep=%q first=%q: open: %v", sep, first, err)
+				continue
+			}
+			got, err := r.Get(NewReference(3, 0), true)
+			want, _ := b2ParseOne([]byte(first))
+			if err != nil || !Equal(got, want) {
+				t.Errorf("B2-FAIL objstm-layout sep=%q first=%q: got %v (%v)", sep, first, AsString(got), err)
+			}
+		}
+	}
+	t.Logf("B2-CASES %d", cases)
 }
